@@ -87,6 +87,8 @@ raw_start(struct Storage* self_)
     CHECK(file_create(
       &self->file, self->properties.uri.str, self->properties.uri.nbytes));
     self->is_open = 1;
+    // each acquisition writes its frames from the beginning of its own file
+    self->offset = 0;
     LOG("RAW: Frame header size %d bytes", (int)sizeof(struct VideoFrame));
     return DeviceState_Running;
 Error:
